@@ -213,7 +213,7 @@ def mem_axioms_V():
     x = z3.Const('x!mem', ValSort)
     j = z3.Int('j!mem')
     return [z3.ForAll([a, j], z3.Implies(z3.And(j >= 0, j < L_len(_LV, a)), memV(a, L_get(_LV, a, j))),
-                      patterns=[L_get(_LV, a, j)]),
+                      patterns=[memV(a, L_get(_LV, a, j))]),
             z3.ForAll([a, x], z3.Implies(memV(a, x), z3.And(witV(a, x) >= 0, witV(a, x) < L_len(_LV, a),
                                                            L_get(_LV, a, witV(a, x)) == x)),
                       patterns=[memV(a, x)])]
